@@ -8,6 +8,8 @@ import (
 	"context"
 	"fmt"
 	"math/rand"
+	"os"
+	"path/filepath"
 	"sort"
 	"testing"
 	"time"
@@ -53,25 +55,6 @@ func vfc07NameKind(st vfc07Store, u *vfc07Universe, name string) string {
 	}
 }
 
-func vfc07GenReplicaLabels(rng *rand.Rand, u *vfc07Universe) []string {
-	if rng.Intn(2) == 0 {
-		return nil
-	}
-	cands := append([]string{"absent"}, u.extNames...)
-	cands = append(cands, u.names...)
-	var out []string
-	seen := map[string]bool{}
-	for i := 0; i < 1+rng.Intn(3); i++ {
-		c := cands[rng.Intn(len(cands))]
-		if c == labels.MetricName || seen[c] {
-			continue
-		}
-		seen[c] = true
-		out = append(out, c)
-	}
-	return out
-}
-
 func TestVF_C07(t *testing.T) {
 	r := vfkit.Start(t, "C07")
 	defer r.Finish()
@@ -80,23 +63,22 @@ func TestVF_C07(t *testing.T) {
 		"(1..3 matchers of 20 shapes incl. on external/absent names, or no selector at all; ranges around block/chunk edges; replica-label lists over external/stored/absent names). " +
 		"oracle: for the same selectors, range and replica list, names(Series) is a subset of LabelNames and for each label L seen values_L(Series) is a subset of LabelValues(L). " +
 		"evaluation = one subset check; distinct/non-trivial = (fixture, store, request) whose Series call returned at least one series")
-	nFix := r.N(36, 700)
-	nReq := r.N(36, 90)
-	r.Require(int64(nFix*nReq), nFix*nReq/4)
+	nFix := r.N(12, 160)
+	nReq := r.N(30, 60)
+	r.Require(int64(nFix*nReq*3), nFix*nReq/2)
 	r.Assume("an empty selector list selects every series; the Series API cannot express it, so selector-less label calls are compared with a Series call using one {name=~\".*\"} matcher (matches every series)")
 	r.Assume("external label values are non-empty; request ranges have mint <= maxt")
-	for c := 0; c < nFix; c++ {
-		if !r.Want(c) {
-			continue
-		}
-		rng := r.Rand(c)
-		r.Guard(c, "c07-fixture", map[string]any{"case": c}, func() { vfc07RunFixture(t, r, c, rng, nReq) })
-	}
+	base := t.TempDir()
+	vfc07Parallel(r, nFix, 4, func(c int) {
+		vfc07Guard(r, c, "c07-fixture", func() { vfc07RunFixture(t, r, c, r.Rand(c), nReq, filepath.Join(base, fmt.Sprintf("case%d", c))) })
+	})
 }
 
-func vfc07RunFixture(t *testing.T, r *vfkit.Run, c int, rng *rand.Rand, nReq int) {
-	dir := t.TempDir()
+func vfc07RunFixture(t *testing.T, r *vfkit.Run, c int, rng *rand.Rand, nReq int, dir string) {
+	defer func() { _ = os.RemoveAll(dir) }()
+	t0 := time.Now()
 	fx := vfc07NewFixture(t, rng, dir, vfc07Opts{maxBlocks: 3, maxSeries: 120, slots: 30, hist: true, downsampled: true})
+	t1 := time.Now()
 	db := vfc07OpenDB(t, rng, fx, rng.Intn(20), 12)
 	defer func() { _ = db.Close() }()
 	var tsdbExt labels.Labels
@@ -150,6 +132,12 @@ func vfc07RunFixture(t *testing.T, r *vfkit.Run, c int, rng *rand.Rand, nReq int
 	}
 	r.Sample(map[string]any{"case": c, "blocks": vfc07DescribeFixture(fx), "tsdb_ext": tsdbExt.String(), "stored_names": fx.u.names, "lazy_postings": lazy, "proxy_strategy": string(strategy)})
 
+	t2 := time.Now()
+	defer func() {
+		r.Count("wall_ms_fixture", int(t1.Sub(t0)/time.Millisecond))
+		r.Count("wall_ms_stores", int(t2.Sub(t1)/time.Millisecond))
+		r.Count("wall_ms_requests", int(time.Since(t2)/time.Millisecond))
+	}()
 	for q := 0; q < nReq; q++ {
 		ms := vfc07GenMatchers(rng, fx.u, 0.12)
 		mint, maxt := fx.vfc07Range(rng)
@@ -168,6 +156,9 @@ func vfc07RunFixture(t *testing.T, r *vfkit.Run, c int, rng *rand.Rand, nReq int
 			labelMs = nil
 		}
 		for _, st := range stores {
+			if st.kind == "proxy" && q%2 == 1 {
+				continue // the proxy repeats the work of both members; drive it on every second request
+			}
 			vfc07CheckRequest(r, c, rng, fx, st, seriesMs, labelMs, mint, maxt, replica, skip, res, selectorless)
 		}
 	}
@@ -247,8 +238,8 @@ func vfc07CheckRequest(r *vfkit.Run, c int, rng *rand.Rand, fx *vfc07Fixture, st
 	// label values for (a bounded number of) the labels seen
 	seen := vfc07SortedKeys(names)
 	rng.Shuffle(len(seen), func(i, j int) { seen[i], seen[j] = seen[j], seen[i] })
-	if len(seen) > 5 {
-		seen = seen[:5]
+	if len(seen) > 3 {
+		seen = seen[:3]
 	}
 	sort.Strings(seen)
 	for _, n := range seen {
